@@ -655,6 +655,17 @@ func evalOne(rep *Report, mu *sync.Mutex, addViolation func(Violation), fields m
 				addViolation(mk("filediff", "filediff", "file vs string: "+msg, Node{"string": rr.Ms, "file": rr.FMs}))
 				return
 			}
+			if rr.F2Ran {
+				if rr.F2Panic != "" {
+					addViolation(mk("panic", "filepanic", "RunFiles on two files panicked: "+rr.F2Panic, nil))
+					return
+				}
+				// commands x files: per command, the matches of the first file then of the second
+				if msg := twoFilesMatch(rr.FMs, rr.F2Ms); msg != "" {
+					addViolation(mk("filediff", "filediff2", "two files with the same bytes vs one: "+msg, Node{"one": rr.FMs, "two": rr.F2Ms}))
+					return
+				}
+			}
 		}
 	}
 	if !et.Firm {
@@ -696,6 +707,33 @@ func wellFormedPerCommand(t []int, ms []MatchJ) string {
 				}
 			}
 			start = i
+		}
+	}
+	return ""
+}
+
+// twoFilesMatch: running on [f, g] (same bytes) must give, per command, the
+// matches on f followed by the same matches on g
+func twoFilesMatch(one, two []MatchJ) string {
+	if len(two) != 2*len(one) {
+		return fmt.Sprintf("%d matches on one file, %d on two", len(one), len(two))
+	}
+	// split `one` into per-command segments (match numbers restart)
+	var segs [][]MatchJ
+	start := 0
+	for i := 1; i <= len(one); i++ {
+		if i == len(one) || one[i].N <= one[i-1].N {
+			segs = append(segs, one[start:i])
+			start = i
+		}
+	}
+	k := 0
+	for _, seg := range segs {
+		for rep := 0; rep < 2; rep++ {
+			if msg := sameMatches(seg, two[k:k+len(seg)]); msg != "" {
+				return msg
+			}
+			k += len(seg)
 		}
 	}
 	return ""
